@@ -117,6 +117,11 @@ class DiGraphEx(nx.DiGraph):
         if target_nodes is not None:
             graph = graph.minimal_induced_subgraph(target_nodes).copy()
 
+        # networkx builds derived graphs with a bare constructor: carry the nodes' attributes along
+        graph.tag = self.tag
+        graph.debug = self.debug
+        graph.setup = self.setup
+        graph.compound_priority = self.compound_priority
         return graph
 
     @property
